@@ -108,6 +108,15 @@ def run(chk):
         d = session.scratch_dir()
         try:
             specs = gen_specs(rng)
+            # every third scenario: directories written in several ways (trailing slash, /., a detour through ..) - one directory,
+            # one build of a script in it
+            if i % 3 == 0:
+                for s_ in specs:
+                    if s_.suite_loc.startswith("/") and "%" not in s_.suite_loc:
+                        s_.suite_loc_spelled = rng.choice([None, s_.suite_loc + "/", s_.suite_loc + "/.", "/zz/.." + s_.suite_loc])
+                    if s_.exe_path.startswith("/"):
+                        s_.exe_path_spelled = rng.choice([None, s_.exe_path + "/", "/zz/../" + s_.exe_path.lstrip("/")])
+                chk.count("scenarios_with_directories_spelled_in_several_ways")
             ids = mh.build_ids(specs)
             # every fourth scenario: the same runs as two experiments of one session (builds are per session, not per experiment)
             mh.SPLIT_EXPERIMENTS = i % 4 == 1
